@@ -227,6 +227,44 @@ package ring
 //@   requires z >= 1 && rf >= 1 && 0 <= w
 //@   ensures  (max(rf, w) / 2 + 1) + (z - min(z, rf) / 2) >= z + 1
 //@
+//@ # The set-theoretic step, mechanised: among n instances (or zones) numbered 0..n-1, a set of acknowledging members and a
+//@ # set of answering members whose sizes add up to more than n share a member. cardUpTo counts the members below n.
+//@ pure func cardUpTo(s []bool, n int) int = n <= 0 ? 0 : cardUpTo(s, n - 1) + (s[n-1] ? 1 : 0)
+//@ lemma cardBounds(s []bool, n int)
+//@   property C02
+//@   requires 0 <= n
+//@   ensures 0 <= cardUpTo(s, n) && cardUpTo(s, n) <= n
+//@   induction on n
+//@ lemma disjointCards(a []bool, b []bool, n int)
+//@   property C02
+//@   requires 0 <= n
+//@   ensures (forall i int :: 0 <= i && i < n ==> !(a[i] && b[i])) ==> cardUpTo(a, n) + cardUpTo(b, n) <= n
+//@   induction on n
+//@ lemma pigeonhole(a []bool, b []bool, n int)
+//@   property C02
+//@   requires 0 <= n && cardUpTo(a, n) + cardUpTo(b, n) > n
+//@   ensures exists i int :: 0 <= i && i < n && a[i] && b[i]
+//@   proof
+//@   use disjointCards(a, b, n)
+//@ # end to end for the ring-wide read without zones: acknowledged >= majority(max(RF, walked)) members of the n instances,
+//@ # answering >= max(n, RF) - RF/2 of them: some instance both acknowledged the write and answered the read
+//@ lemma writeReadShareReplica(ack []bool, ans []bool, n int, rf int, w int)
+//@   property C02
+//@   requires n >= 1 && rf >= 1 && 0 <= w && w <= n && cardUpTo(ack, n) >= max(rf, w) / 2 + 1 && cardUpTo(ans, n) >= max(n, rf) - rf / 2
+//@   ensures exists i int :: 0 <= i && i < n && ack[i] && ans[i]
+//@   proof
+//@   use quorumIntersectsNonZone(n, rf, w)
+//@   use pigeonhole(ack, ans, n)
+//@ # ... and with zones: acknowledging zones (one acknowledged instance per zone) >= majority(max(RF, walked)), fully read
+//@ # zones >= Z - min(Z,RF)/2: some zone holds an acknowledged instance and was read completely
+//@ lemma writeReadShareZone(ackZ []bool, readZ []bool, z int, rf int, w int)
+//@   property C02
+//@   requires z >= 1 && rf >= 1 && 0 <= w && cardUpTo(ackZ, z) >= max(rf, w) / 2 + 1 && cardUpTo(readZ, z) >= z - min(z, rf) / 2
+//@   ensures exists i int :: 0 <= i && i < z && ackZ[i] && readZ[i]
+//@   proof
+//@   use quorumIntersectsZone(z, rf, w)
+//@   use pigeonhole(ackZ, readZ, z)
+//@
 //@ # ---- C01/C05: lookup over a well-formed ring: no panic, no inconsistent-token error ---------
 //@ # ringRep: the representation invariant established by setRingStateFromDesc (token list strictly sorted,
 //@ # every token has an owner entry, every owner is registered, every owner zone is a ring zone).
